@@ -652,6 +652,15 @@ handle_new_connection(struct qb_ipcs_service *s,
 	const char suffix[] = "/qb";
 	int desc_len;
 
+	/*
+	 * max_msg_size is whatever the peer put into its handshake.  libqb's
+	 * own client never asks for less than a connection response (see
+	 * qb_ipcc_connect()); hold everyone else to the same floor so that
+	 * receive_buf can always take at least a request header.
+	 */
+	max_buffer_size = QB_MAX(max_buffer_size,
+				 sizeof(struct qb_ipc_connection_response));
+
 	c = qb_ipcs_connection_alloc(s);
 	if (c == NULL) {
 		qb_ipcc_us_sock_close(sock);
